@@ -34,6 +34,7 @@ SIG_ZERO = "C17.error_rates.empty_reference_zero_division"
 SIG_OVERLAP = "C17.names.overlapping_prefix_suffix"
 SIG_TG_F32 = "C17.textgrid.infer_length_float32"
 SIG_DUP_LIST = "C17.subset.duplicate_utt_list"
+SIG_CHUNK_EMPTY = "C17.chunk.subdir_without_matching_file"
 # frame shifts whose product with a frame count is not exact in float32 (11.61 ms = 256 samples at
 # 22.05 kHz; 1000/44100 = "raw samples at 44.1 kHz", the setting the help text recommends)
 ODD_SHIFTS = [11.61, 11.6, 1000 / 44100, 0.1]
@@ -120,7 +121,7 @@ def close(a, b, tol):
 class C17(PropertyCheck):
     pid = "C17"
     title = "Command-line conversions invert each other and ignore worker count"
-    rule = ("random small corpora (0-5 utterances, ids over a 11-letter alphabet incl. '.', '_', '-') with "
+    rule = ("random small corpora (0-8 utterances, ids over a 11-letter alphabet incl. '.', '_', '-') with "
             "default and non-default --file-prefix/--file-suffix (empty ones, prefix == suffix, overlapping), "
             "junk files that must not be selected; kinds: alidir (ali->ref->ali), refdir (ref->ali->ref incl. "
             "non-canonical and malformed refs), trn/ctm/textgrid round trips, er (error-rate command: "
@@ -131,12 +132,20 @@ class C17(PropertyCheck):
             "stored id the table lacks: ValueError); token files of shape (R,), (R,1), (R,3) with and without "
             "times; REF HYP OUT or the parent directory with the figures on stdout; with/without --quiet), "
             "token ids of the trn/ctm/textgrid vocabularies and alignment labels also over {-100, 2^31, "
-            "-2^63, 2^63-1}, subset (every criterion x copy mode), "
+            "-2^63, 2^63-1}, subset (every criterion x copy mode; --utt-list(-file) in 30% of the cases; the source "
+            "tree is ANY tree: ali/ and ref/ each there or not, holding part of the utterances of feat/, utterances "
+            "feat/ lacks (60%), non-matching names; unrelated sub-directories / root files in src (35%); renamed "
+            "sub-directories via --feat/--ali/--ref-subdir (30%); requests name utterances of feat/, ids that exist "
+            "only elsewhere in src, ids that exist nowhere), datadir (chunk-torch-spect-data-dir and "
+            "get-torch-spect-data-dir-info on the same kind of tree: which utterances are chunked into which "
+            "sub-directory, num_utterances / total_frames / total_tokens / count_*), refdir --feat-dir with "
+            "utterances ref/ lacks, "
             "moments (ali/ref length moments), mvn (grouped MVN statistics); textgrid also with a tier "
             "without intervals (10%) and frame shifts that are inexact in float32 (12%: 11.61, 11.6, 0.1, "
             "1000/44100 ms); --utt-list with an utterance listed twice (30% of the list cases); every kind includes the empty "
             "corpus; ctm times on a millisecond or a dyadic (1/1024 s) grid; worker runs (extra_checks): "
-            "9 pipelines (ali<->token, trn, ctm, textgrid, subset, ali/ref moments, mvn, chunk) x corpora "
+            "9 pipelines (ali<->token, trn, ctm, textgrid, subset incl. --utt-list(-file) and the three copy modes, "
+            "ali/ref moments, mvn, chunk; subset and chunk on inconsistent data directories) x corpora "
             "of 0/1/3 utterances x workers {0,1,2} x chunk {1,2}, fork sweep + spawn sample; thorough adds "
             "7 utterances x {0,1,3} x chunk {1,2} and every small spawn run. non-trivial: >= 2 utterances "
             "and a non-default option; distinct by case")
@@ -167,7 +176,7 @@ class C17(PropertyCheck):
             # extra_checks gathers them
             self._worker_runs = self._start_worker_runs(rng, tier)
         gens = [self.gen_alidir, self.gen_refdir, self.gen_trn, self.gen_ctm, self.gen_textgrid,
-                self.gen_er, self.gen_subset, self.gen_moments, self.gen_mvn]
+                self.gen_er, self.gen_subset, self.gen_moments, self.gen_mvn, self.gen_datadir]
         for i in range(n):
             for g in gens:
                 c = g(rng, tier)
@@ -225,7 +234,13 @@ class C17(PropertyCheck):
         for j in junk_names(rng, p, s, taken):
             files.append([j, [[1, 0, 2]], "ok", 2 if use_feat else None])
         rng.shuffle(files)
-        return {"kind": "refdir", "prefix": p, "suffix": s, "files": files, "use_feat": use_feat}
+        case = {"kind": "refdir", "prefix": p, "suffix": s, "files": files, "use_feat": use_feat}
+        if use_feat and rng.random() < 0.5:
+            # --feat-dir is a directory of its own: it may hold utterances ref/ lacks and names that do not
+            # match; only the feature files of the token files are consulted
+            extra = [p + u + s for u in rand_utts(rng, rng.randint(1, 2))] + junk_names(rng, p, s, taken)
+            case["feat_extra"] = [n for n in extra if n not in {f[0] for f in files}]
+        return case
 
     def gen_vocab(self, rng):
         toks = rng.sample(["a", "b", "c", "dd", "e-1", "<s>", "é", "7"], rng.randint(2, 5))
@@ -371,6 +386,11 @@ class C17(PropertyCheck):
         return case
 
     def gen_subset(self, rng, tier):
+        """A source tree that need NOT be a consistent SpectDataSet: `feat/` decides which utterances exist;
+        `ali/` and `ref/` (each there or not) hold any part of them, files of utterances `feat/` does not
+        have (strays), names that do not match; `src` may hold sub-directories and files the command has no
+        business with. `--utt-list(-file)` requests draw from everything that exists anywhere and from ids
+        that exist nowhere."""
         p, s = pick_affixes(rng, 0.5)
         utts = rand_utts(rng, rng.choice([0, 1, 2, 3, 4, 5, 8]))
         feat = [[p + u + s, rng.randint(1, 4)] for u in utts]
@@ -378,30 +398,104 @@ class C17(PropertyCheck):
         for j in junk_names(rng, p, s, taken):
             feat.append([j, rng.randint(1, 4)])
         only = rng.random() < 0.2
-        others = {}
+        others, unrelated, subdirs, strays = {}, [], None, []
         if not only:
+            if rng.random() < 0.6:
+                # utterances that only ali/ and / or ref/ have
+                strays = [u for u in rand_utts(rng, rng.choice([1, 1, 2])) if u not in utts]
             for sub in ("ali", "ref"):
                 if rng.random() < 0.7:
                     names = [f[0] for f in feat if rng.random() < 0.7]
+                    names += [p + u + s for u in strays if rng.random() < 0.75]
                     if rng.random() < 0.3:
                         names.append(p + "extra" + s)
-                    others[sub] = names
+                    if rng.random() < 0.3:
+                        # names that do not match, in this sub-directory only
+                        names += junk_names(rng, p, s, taken | set(names))
+                    others[sub] = sorted(set(names), key=names.index)
+            if rng.random() < 0.3:
+                # non-default names of the sub-directories; then a directory with the DEFAULT name is just
+                # another unrelated directory
+                subdirs = {"feat": rng.choice(["feat", "fbank"]), "ali": rng.choice(["ali", "pdf"]),
+                           "ref": rng.choice(["ref", "tok.d"])}
+            if rng.random() < 0.35:
+                # things of src the command has no business with: another sub-directory, files at the root
+                where = ["hyp", ""] + [k for k in ("ali", "ref") if subdirs and subdirs[k] != k]
+                cands = [f[0] for f in feat] + [p + u + s for u in strays] + [p + "only_here" + s, "notes.txt"]
+                for _ in range(rng.randint(1, 3)):
+                    e = [rng.choice(where), rng.choice(cands)]
+                    if e not in unrelated:
+                        unrelated.append(e)
         N = len(utts)
-        kind = rng.choice(["first_n", "last_n", "shortest_n", "longest_n", "first_ratio", "last_ratio",
-                           "shortest_ratio", "longest_ratio", "utt_list", "utt_list_file", "rand_n", "rand_ratio"])
+        kinds = ["first_n", "last_n", "shortest_n", "longest_n", "first_ratio", "last_ratio",
+                 "shortest_ratio", "longest_ratio", "rand_n", "rand_ratio"]
+        kind = rng.choice(["utt_list", "utt_list_file"]) if rng.random() < 0.3 else rng.choice(kinds)
         crit = {"kind": kind}
         if kind.endswith("_n"):
             crit["n"] = rng.choice([0, 1, 2, N, N + 2, max(N - 1, 0)])
         elif kind.endswith("_ratio"):
             crit["q"] = rng.choice(["0", "1", "1/2", "1/4", "3/4", "5/8", "1/8"])
         else:
-            pool = utts + ["no_" + rand_name(rng)]
+            # ids that exist somewhere in src but not in feat/ (in ali/, ref/, an unrelated directory)
+            elsewhere = list(strays)
+            for n in [n for names in others.values() for n in names] + [n for _, n in unrelated]:
+                u = n[len(p): len(n) - len(s)]
+                if matches(p, s, n) and len(n) >= len(p) + len(s) and n not in taken and u not in elsewhere \
+                        and u and u[0] not in "-.":
+                    elsewhere.append(u)
+            pool = utts + elsewhere + ["no_" + rand_name(rng)]
             crit["list"] = rng.sample(pool, rng.randint(0, len(pool)))
+            if elsewhere and rng.random() < 0.6 and not set(crit["list"]) & set(elsewhere):
+                crit["list"].insert(rng.randrange(len(crit["list"]) + 1), rng.choice(elsewhere))
             if crit["list"] and rng.random() < 0.3:
                 # the same utterance listed twice (utt_ids keeps the multiplicity)
                 crit["list"].insert(rng.randrange(len(crit["list"]) + 1), rng.choice(crit["list"]))
-        return {"kind": "subset", "prefix": p, "suffix": s, "feat": feat, "others": others, "only": only,
+        case = {"kind": "subset", "prefix": p, "suffix": s, "feat": feat, "others": others, "only": only,
                 "crit": crit, "mode": rng.choice(["link", "copy", "symlink"]), "seed": rng.randint(0, 99)}
+        if unrelated:
+            case["unrelated"] = unrelated
+        if subdirs:
+            case["subdirs"] = subdirs
+        return case
+
+    def gen_datadir(self, rng, tier):
+        """The two other commands that walk a whole SpectDataSet directory (chunk-torch-spect-data-dir,
+        get-torch-spect-data-dir-info) on a tree that need not be consistent: see gen_subset."""
+        p, s = pick_affixes(rng, 0.5)
+        utts = rand_utts(rng, rng.choice([0, 1, 2, 3, 4]))
+        feat = [[p + u + s, rng.randint(1, 3)] for u in utts]
+        taken = {f[0] for f in feat}
+        T_of = dict((n, T) for n, T in feat)
+        for j in junk_names(rng, p, s, taken):
+            feat.append([j, rng.randint(1, 3)])
+        strays = [u for u in rand_utts(rng, rng.choice([0, 1, 1, 2])) if u not in utts]
+        others, unrelated, subdirs = {}, [], None
+        for sub in ("ali", "ref"):
+            if rng.random() < 0.75:
+                keep = rng.choice([1.0, 0.8, 0.5])
+                names = [f[0] for f in feat if rng.random() < keep]
+                names += [p + u + s for u in strays if rng.random() < 0.7]
+                if rng.random() < 0.3:
+                    names += junk_names(rng, p, s, taken | set(names))
+                names = sorted(set(names), key=names.index)
+                # first dimension of the stored tensor: ali = T of the feature file, ref = number of tokens
+                others[sub] = [[n, T_of.get(n, 2) if sub == "ali" else rng.randint(1, 2)] for n in names]
+        if rng.random() < 0.3:
+            subdirs = {"feat": rng.choice(["feat", "fbank"]), "ali": rng.choice(["ali", "pdf"]),
+                       "ref": rng.choice(["ref", "tok.d"])}
+        if rng.random() < 0.35:
+            where = ["hyp", ""] + [k for k in ("ali", "ref") if subdirs and subdirs[k] != k]
+            cands = [f[0] for f in feat] + [p + u + s for u in strays] + [p + "only_here" + s, "notes.txt"]
+            for _ in range(rng.randint(1, 3)):
+                e = [rng.choice(where), rng.choice(cands)]
+                if e not in unrelated:
+                    unrelated.append(e)
+        case = {"kind": "datadir", "prefix": p, "suffix": s, "feat": feat, "others": others}
+        if unrelated:
+            case["unrelated"] = unrelated
+        if subdirs:
+            case["subdirs"] = subdirs
+        return case
 
     def gen_moments(self, rng, tier):
         p, s = pick_affixes(rng, 0.5)
@@ -489,6 +583,8 @@ class C17(PropertyCheck):
                 K.save(t, os.path.join(ref, name))
                 if T is not None:
                     K.save(torch.zeros(T, 2), os.path.join(feat, name))
+            for name in case.get("feat_extra", []):
+                K.save(torch.zeros(7, 2), os.path.join(feat, name))
             ali, ref2 = os.path.join(d, "ali"), os.path.join(d, "ref2")
             na = K.name_args(case["prefix"], case["suffix"])
             fa = ["--feat-dir", feat] if case["use_feat"] else []
@@ -717,23 +813,35 @@ class C17(PropertyCheck):
                     text = f.read()
             return {"ret": ret, "text": text, "seen": seen, "tensors": tensors}
 
+    @staticmethod
+    def _subdirs(case):
+        """canonical name -> the name of the sub-directory in this case."""
+        return case.get("subdirs") or {"feat": "feat", "ali": "ali", "ref": "ref"}
+
     def impl_subset(self, case):
         import torch
         with K.tmpdir() as d:
             src, dest = os.path.join(d, "src"), os.path.join(d, "dest")
-            featd = src if case["only"] else os.path.join(src, "feat")
+            sd = self._subdirs(case)
+            featd = src if case["only"] else os.path.join(src, sd["feat"])
             os.makedirs(featd)
             k = 0
             for name, T in case["feat"]:
                 k += 1
                 K.save(torch.full((T, 2), float(k)), os.path.join(featd, name))
             for sub, names in case["others"].items():
-                os.makedirs(os.path.join(src, sub))
+                os.makedirs(os.path.join(src, sd[sub]))
                 for name in names:
                     k += 1
-                    K.save(K.long_tensor([k, k]), os.path.join(src, sub, name))
+                    K.save(K.long_tensor([k, k]), os.path.join(src, sd[sub], name))
+            for sub, name in case.get("unrelated", []):
+                k += 1
+                os.makedirs(os.path.join(src, sub), exist_ok=True)
+                K.save(K.long_tensor([k, k, k]), os.path.join(src, sub, name))
             c = case["crit"]
             argv = [src, dest] + K.name_args(case["prefix"], case["suffix"]) + ["--num-workers", "0"]
+            if case.get("subdirs"):
+                argv += ["--feat-subdir", sd["feat"], "--ali-subdir", sd["ali"], "--ref-subdir", sd["ref"]]
             if case["only"]:
                 argv.append("--only")
             if case["mode"] == "copy":
@@ -761,6 +869,7 @@ class C17(PropertyCheck):
                     argv += ["--utt-list-file", lp]
                 else:
                     argv += [flag] + c["list"]
+            back = {v: k_ for k_, v in sd.items()}
 
             def run(dst):
                 a = list(argv)
@@ -770,7 +879,12 @@ class C17(PropertyCheck):
                 for root, _, files in os.walk(dst):
                     for n in files:
                         rel = os.path.relpath(os.path.join(root, n), dst)
-                        got.append(rel if not case["only"] else "feat/" + rel)
+                        if case["only"]:
+                            got.append("feat/" + rel)
+                        else:
+                            # back to the canonical names feat/ ali/ ref/; anything else as "other:<path>"
+                            top, _, rest = rel.partition(os.sep)
+                            got.append(back[top] + "/" + rest if (rest and top in back) else "other:" + rel)
                         sp = os.path.join(src, rel)
                         same &= os.path.exists(sp) and K.file_bytes(sp) == K.file_bytes(os.path.join(root, n))
                 return ret, sorted(got), same
@@ -780,6 +894,54 @@ class C17(PropertyCheck):
             if c["kind"].startswith("rand_"):
                 out["again"] = run(os.path.join(d, "dest2"))[1]
             return out
+
+    def impl_datadir(self, case):
+        import torch
+        with K.tmpdir() as d:
+            src, dest = os.path.join(d, "src"), os.path.join(d, "dest")
+            sd = self._subdirs(case)
+            os.makedirs(os.path.join(src, sd["feat"]))
+            T_of = {}
+            for k, (name, T) in enumerate(case["feat"]):
+                T_of[name] = T
+                K.save(torch.full((T, 2), float(k)), os.path.join(src, sd["feat"], name))
+            for sub, files in case["others"].items():
+                os.makedirs(os.path.join(src, sd[sub]))
+                for name, n in files:
+                    if sub == "ali":
+                        t = K.long_tensor([i % 3 for i in range(n)])
+                    else:
+                        T = T_of.get(name, 2)
+                        t = K.long_tensor([[1, 0, T]] if n == 1 else [[1, 0, T // 2], [2, T // 2, T]], (n, 3))
+                    K.save(t, os.path.join(src, sd[sub], name))
+            for sub, name in case.get("unrelated", []):
+                os.makedirs(os.path.join(src, sub), exist_ok=True)
+                K.save(K.long_tensor([5, 5, 5]), os.path.join(src, sub, name))
+            na = K.name_args(case["prefix"], case["suffix"])
+            if case.get("subdirs"):
+                na += ["--feat-subdir", sd["feat"], "--ali-subdir", sd["ali"], "--ref-subdir", sd["ref"]]
+            # new utterance ids "<old id>#<index of the chunk>": the source utterance can be read back
+            chunk_error = None
+            try:
+                ret = K.call("chunk_torch_spect_data_dir", [src, dest, "--quiet", "--num-workers", "0",
+                                                            "--format-utt", "{utt_id}#{idx}"] + na)
+            except Exception as e:  # noqa: judged by the predicate; the info command is still run
+                ret, chunk_error = None, [type(e).__name__, str(e)[:200].replace(d, "<tmp>")]
+            back = {v: k_ for k_, v in sd.items()}
+            got = []
+            for root, _, files in os.walk(dest):
+                for n in files:
+                    rel = os.path.relpath(os.path.join(root, n), dest)
+                    top, _, rest = rel.partition(os.sep)
+                    got.append(back[top] + "/" + rest if (rest and top in back) else "other:" + rel)
+            info_path = os.path.join(d, "info.txt")
+            ret2 = K.call("get_torch_spect_data_dir_info", [src, info_path] + na)
+            info = {}
+            with open(info_path) as f:
+                for line in f:
+                    k_, v = line.split()
+                    info[k_] = int(v)
+            return {"ret": ret, "chunk_error": chunk_error, "dest": sorted(got), "ret_info": ret2, "info": info}
 
     def impl_moments(self, case):
         with K.tmpdir() as d:
@@ -890,10 +1052,24 @@ class C17(PropertyCheck):
                 c = {"kind": "first_n", "n": c["n"]}
             if c["kind"] == "rand_ratio":
                 c = {"kind": "first_ratio", "q": c["q"]}
+            # the whole tree goes to the model: feat/, the existing ali/ and ref/ with ANY names, and what
+            # else src holds (sub-directories the command does not know -- a directory with the default name
+            # of a renamed sub-directory included -- and files at the root)
+            unrel = [[("unrelated:" + sub) if sub in ("feat", "ali", "ref") else sub, n]
+                     for sub, n in case.get("unrelated", [])]
             return {"op": "c17.subset", "case": {"prefix": p, "suffix": s,
                                                   "feat": [[T, n] for n, T in case["feat"]],
                                                   "others": [[sub, names] for sub, names in case["others"].items()],
+                                                  "unrelated": unrel,
                                                   "crit": c, "link": case["mode"] != "copy"}}
+        if k == "datadir":
+            unrel = [[("unrelated:" + sub) if sub in ("feat", "ali", "ref") else sub, n]
+                     for sub, n in case.get("unrelated", [])]
+            return {"op": "c17.datadir", "case": {"prefix": p, "suffix": s,
+                                                   "feat": [[T, n] for n, T in case["feat"]],
+                                                   "others": [[sub, [[sz, n] for n, sz in files]]
+                                                              for sub, files in case["others"].items()],
+                                                   "unrelated": unrel}}
         if k == "moments":
             files = [x for n, x in sorted(case["files"]) if matches(p, s, n)]
             return {"op": "c17.moments", "case": {"kind": case["which"], "files": files, "excl": case["excl"],
@@ -1382,6 +1558,15 @@ class C17(PropertyCheck):
         mdest = sorted(a + "/" + b for a, b in model["dest"])
         mcmd = sorted(a + "/" + b for a, b in cmd["ok"])
         out = [] if mcmd == mdest else [f"model: copy loop {mcmd} differs from the declarative copySubset {mdest}"]
+        # the model's reading of the tree against a direct one: utterances of feat/, and for a list request
+        # "requested and in feat/" (order and multiplicity of the request)
+        p, s = case["prefix"], case["suffix"]
+        ids = [n[len(p): len(n) - len(s)] for n, _ in case["feat"] if matches(p, s, n)]
+        if sorted(model.get("feat_ids", ids)) != sorted(ids):
+            out.append(f"model: utterances of feat/ {model['feat_ids']}, direct reading {ids}")
+        if case["crit"]["kind"] in ("utt_list", "utt_list_file") and \
+                model["selected"] != [u for u in case["crit"]["list"] if u in ids]:
+            out.append(f"model: selected {model['selected']} for the request {case['crit']['list']} on feat/ {ids}")
         return out if impl["dest"] == mcmd else out + [f"dest impl={impl['dest']} model={mcmd}"]
 
     def _dup_listed(self, case):
@@ -1403,6 +1588,13 @@ class C17(PropertyCheck):
         fails = []
         if not impl["identical"]:
             fails.append(("a file in dest differs from the file of the same name in src", None))
+        # dest is a data directory: nothing outside feat/ and the sub-directories src has among ali/, ref/
+        # (not the other sub-directories of src, not the files at its root, not a directory that merely
+        # carries the default name of a renamed sub-directory)
+        known = ["feat/"] + [sub + "/" for sub in case["others"]]
+        alien = [x for x in impl["dest"] if not any(x.startswith(k) for k in known)]
+        if alien:
+            fails.append((f"dest holds {alien}: not files of feat/ or of an existing ali/ / ref/ of src", None))
         p, s = case["prefix"], case["suffix"]
         avail = sorted(n for n, _ in case["feat"] if matches(p, s, n))
         got_feat = sorted(x[len("feat/"):] for x in impl["dest"] if x.startswith("feat/"))
@@ -1422,14 +1614,94 @@ class C17(PropertyCheck):
             if impl["again"] != impl["dest"]:
                 fails.append((f"--{c['kind'].replace('_', '-')} with the same --seed extracted a different subset", None))
             return fails
+        # every sub-directory of dest is the restriction of the same sub-directory of src to the selected
+        # utterances OF feat/ (model["selected"]: Lean's subsetSel on the tree; for a list: requested and in
+        # feat/): a file of ali/ or ref/ whose utterance feat/ does not have is never extracted
         want = sorted({p + u + s for u in model["selected"]})     # a name listed twice is one file
         if got_feat != want:
-            fails.append((f"{c}: extracted {got_feat}, requested utterances are {want}", None))
+            fails.append((f"{c}: extracted {got_feat}, requested utterances (of feat/) are {want}", None))
         for sub, names in case["others"].items():
             got = sorted(x[len(sub) + 1:] for x in impl["dest"] if x.startswith(sub + "/"))
             exp = sorted(set(want) & set(names))
             if got != exp:
-                fails.append((f"{sub}/: extracted {got}, expected {exp}", None))
+                stray = sorted(set(got) - set(want))
+                fails.append((f"{sub}/: extracted {got}, expected {exp} = files of src/{sub} of the selected "
+                              f"utterances of feat/" + (f"; {stray} belong to no selected utterance of feat/"
+                                                        if stray else ""), None))
+        return fails
+
+    # ---- datadir (chunk / info on a whole SpectDataSet directory)
+    def cmp_datadir(self, case, impl, model):
+        p, s = case["prefix"], case["suffix"]
+        ids = [n[len(p): len(n) - len(s)] for n, _ in case["feat"] if matches(p, s, n)]
+        out = []
+        if sorted(model["feat_ids"]) != sorted(ids):
+            out.append(f"model: utterances of feat/ {model['feat_ids']}, direct reading {ids}")
+        # the model follows the repaired chunk command; the pinned behaviour, verified to be exactly the known
+        # finding (FileNotFoundError inside a sub-directory without a matching file), is no disagreement
+        return out + [d for d, sig in self.pred_datadir(case, impl, model) if sig != SIG_CHUNK_EMPTY]
+
+    def _subdir_without_match(self, case):
+        """Existing ali/ / ref/ of src that hold no name matching prefix and suffix."""
+        p, s = case["prefix"], case["suffix"]
+        return sorted(sub for sub, files in case["others"].items() if not any(matches(p, s, n) for n, _ in files))
+
+    def pred_datadir(self, case, impl, model):
+        if self._err(impl):
+            return [(f"command raised {impl['error']}: {impl.get('message')}", None)]
+        fails = []
+        p, s = case["prefix"], case["suffix"]
+        ids = model["ids"]      # Lean: utterances that feat/ and every ali/, ref/ that counts list (sorted)
+        if impl.get("chunk_error"):
+            cls, msg = impl["chunk_error"]
+            empty = self._subdir_without_match(case)
+            if cls == "FileNotFoundError" and empty and model["feat_ids"] and \
+                    any(f"/{self._subdirs(case)[sub]}/" in msg for sub in empty):
+                fails.append((f"chunk: FileNotFoundError ({msg}): src has the sub-directory {empty} without a "
+                              f"single matching file; the data set (and the info command) take it as absent, "
+                              f"the chunk command tries to load from it", SIG_CHUNK_EMPTY))
+            else:
+                fails.append((f"chunk command raised {cls}: {msg}", None))
+        else:
+            if impl["ret"] not in (None, 0):
+                fails.append((f"chunk returned {impl['ret']}", None))
+            exists = ["feat/"] + [sub + "/" for sub in case["others"]]
+            # sub-directories that count for the data set: with at least one matching file (Lean: dataSetSubs)
+            known = ["feat/"] + [sub + "/" for sub in model["subs"]]
+            alien = [x for x in impl["dest"] if not any(x.startswith(k) for k in exists)]
+            if alien:
+                fails.append((f"chunk: dest holds {alien}: not files of feat/ or of an existing ali/ / ref/ of src",
+                              None))
+            per_sub = {}
+            for k in exists:
+                names = sorted(x[len(k):] for x in impl["dest"] if x.startswith(k))
+                want = ids if k in known else []
+                if k in known:
+                    per_sub[k] = names
+                srcs = sorted({n[len(p): len(n) - len(s)].rsplit("#", 1)[0] for n in names if matches(p, s, n)})
+                if srcs != want or any(not matches(p, s, n) for n in names):
+                    fails.append((f"chunk: {k} of dest holds chunks of the utterances {srcs} ({names}); the "
+                                  f"utterances every sub-directory of src has are {want}", None))
+            if any(v != per_sub["feat/"] for v in per_sub.values()):
+                fails.append((f"chunk: the sub-directories of dest do not hold the same utterances: {per_sub}", None))
+        info = impl["info"]
+        if impl["ret_info"] not in (None, 0):
+            fails.append((f"info returned {impl['ret_info']}", None))
+        if info.get("num_utterances") != len(ids):
+            fails.append((f"info: num_utterances {info.get('num_utterances')}, the data set has {ids}", None))
+        if info.get("total_frames") != model["frames"]:
+            fails.append((f"info: total_frames {info.get('total_frames')}, the feature files of {ids} have "
+                          f"{model['frames']} frames", None))
+        if "ali" in model["subs"]:
+            counted = sum(v for k, v in info.items() if k.startswith("count_"))
+            if counted != model["sizes"]["ali"]:
+                fails.append((f"info: count_* add up to {counted}, the alignments of {ids} have "
+                              f"{model['sizes']['ali']} frames", None))
+        elif info.get("max_ali_class") != -1:
+            fails.append((f"info: max_ali_class {info.get('max_ali_class')} although the data set has no alignments", None))
+        want_tok = model["sizes"]["ref"] if "ref" in model["subs"] else -1
+        if ("ref" not in model["subs"] or ids) and info.get("total_tokens") != want_tok:
+            fails.append((f"info: total_tokens {info.get('total_tokens')}, expected {want_tok} over {ids}", None))
         return fails
 
     # ---- moments
@@ -1516,7 +1788,7 @@ class C17(PropertyCheck):
         if k == "er":
             nondefault |= bool(case["replace"] or case["ignore"] or case["batch"] != 100 or case["per_utt"]
                                or case["distances"] or case["costs"])
-        if k in ("subset", "moments", "mvn", "ctm", "textgrid"):
+        if k in ("subset", "moments", "mvn", "ctm", "textgrid", "datadir"):
             nondefault = True
         return n >= 2 and nondefault
 
@@ -1549,6 +1821,38 @@ class C17(PropertyCheck):
             t += ["subset." + case["crit"]["kind"], "subset.mode=" + case["mode"]]
             if self._dup_listed(case):
                 t.append("subset.utt_listed_twice")
+            p_, s_ = case["prefix"], case["suffix"]
+            have = {n for n, _ in case["feat"]}
+            stray = {n for names in case["others"].values() for n in names if matches(p_, s_, n) and n not in have}
+            if stray:
+                t.append("subset.src_has_utts_feat_lacks")
+            if any(set(names) != have for names in case["others"].values()):
+                t.append("subset.inconsistent_corpus")
+            if case.get("unrelated"):
+                t.append("subset.unrelated_files_in_src")
+            if case.get("subdirs"):
+                t.append("subset.custom_subdir_names")
+            if "list" in case["crit"]:
+                req = {p_ + u + s_ for u in case["crit"]["list"]}
+                if req & stray:
+                    t.append("subset.requested_utt_only_in_ali_or_ref")
+                if req - have - stray:
+                    t.append("subset.requested_utt_not_in_ali_ref_feat")
+        if k == "datadir":
+            have = {n for n, _ in case["feat"] if matches(case["prefix"], case["suffix"], n)}
+            for sub, files in case["others"].items():
+                names = {n for n, _ in files if matches(case["prefix"], case["suffix"], n)}
+                if names - have:
+                    t.append(f"datadir.{sub}_has_utts_feat_lacks")
+                if have - names:
+                    t.append(f"datadir.{sub}_lacks_utts_of_feat")
+            t.append("datadir.subdirs=" + "+".join(["feat"] + sorted(case["others"])))
+            if self._subdir_without_match(case):
+                t.append("datadir.subdir_without_matching_file")
+            if case.get("unrelated"):
+                t.append("datadir.unrelated_files_in_src")
+            if case.get("subdirs"):
+                t.append("datadir.custom_subdir_names")
         if k == "textgrid":
             if any(not toks for _, toks in case["corpus"]):
                 t.append("textgrid.empty_tier")
@@ -1564,6 +1868,8 @@ class C17(PropertyCheck):
             n_all = sum(len(toks) for _, toks in case["corpus"])
             if n_all:
                 t.append(f"{k}.frames_compared_exactly=" + ("all" if n_ex == n_all else "some" if n_ex else "none"))
+        if k == "refdir" and case.get("feat_extra"):
+            t.append("refdir.feat_dir_has_other_files")
         if k == "refdir" and isinstance(impl, dict) and "error1" in impl:
             t.append("refdir.rejected:" + impl["error1"])
         return t
@@ -1578,6 +1884,30 @@ class C17(PropertyCheck):
                     c = dict(case)
                     c[key] = v[:i] + v[i + 1:]
                     yield c
+        if case["kind"] == "datadir":
+            for sub, names in case["others"].items():
+                yield dict(case, others={k: v for k, v in case["others"].items() if k != sub})
+                for i in range(len(names)):
+                    yield dict(case, others=dict(case["others"], **{sub: names[:i] + names[i + 1:]}))
+            for i in range(len(case.get("unrelated", []))):
+                yield dict(case, unrelated=case["unrelated"][:i] + case["unrelated"][i + 1:])
+            if case.get("subdirs"):
+                yield {k: v for k, v in case.items() if k != "subdirs"}
+        if case["kind"] == "subset":
+            for sub, names in case["others"].items():
+                yield dict(case, others={k: v for k, v in case["others"].items() if k != sub})
+                for i in range(len(names)):
+                    yield dict(case, others=dict(case["others"], **{sub: names[:i] + names[i + 1:]}))
+            for i in range(len(case.get("unrelated", []))):
+                yield dict(case, unrelated=case["unrelated"][:i] + case["unrelated"][i + 1:])
+            if case.get("subdirs"):
+                yield {k: v for k, v in case.items() if k != "subdirs"}
+            lst = case["crit"].get("list")
+            if lst:
+                for i in range(len(lst)):
+                    yield dict(case, crit=dict(case["crit"], list=lst[:i] + lst[i + 1:]))
+            if case["mode"] != "copy":
+                yield dict(case, mode="copy")
         if case["kind"] == "er":
             # an utterance on both sides at once; one token of one sequence; options back to their defaults
             for u in sorted({x[0] for x in case["refs"]} & {x[0] for x in case["hyps"]}):
